@@ -3,6 +3,7 @@ from __future__ import annotations
 
 import ast
 import hashlib
+import json
 import os
 import subprocess
 import tempfile
@@ -376,6 +377,28 @@ def solve_query(pc, goal, axioms, timeout_ms, want_model=True):
     return "undecided", f"z3:{s.reason_unknown()};cvc5:{v2}", dt + dt2, None
 
 
+SCALARS_MARK = "\n#SCALARS#"
+
+
+def model_scalars(m):
+    """Int / String / Bool constants of a counter-model as python values (for replaying it against the real function)."""
+    out = {}
+    for d in m.decls():
+        try:
+            if d.arity() != 0:
+                continue
+            v = m[d]
+            if z3.is_int_value(v):
+                out[d.name()] = v.as_long()
+            elif z3.is_string_value(v):
+                out[d.name()] = v.as_string()
+            elif z3.is_true(v) or z3.is_false(v):
+                out[d.name()] = bool(z3.is_true(v))
+        except Exception:  # noqa
+            pass
+    return out
+
+
 def model_to_str(m, limit=40):
     items = []
     for d in m.decls()[:limit]:
@@ -383,7 +406,47 @@ def model_to_str(m, limit=40):
             items.append(f"{d.name()} = {m[d]}")
         except Exception:  # noqa
             pass
-    return "; ".join(items)[:3000]
+    txt = "; ".join(items)[:3000]
+    try:
+        sc = model_scalars(m)
+        if sc:
+            txt += SCALARS_MARK + json.dumps(sc)
+    except Exception:  # noqa
+        pass
+    return txt
+
+
+def cvc5_scalars(out):
+    """Int / String / Bool constants from cvc5's (get-model) output."""
+    import re
+
+    res = {}
+    for m in re.finditer(r'\(define-fun\s+(\|[^|]*\||\S+)\s+\(\)\s+(Int|String|Bool)\s+(.*?)\)\s*$', out, re.M):
+        name, sort, val = m.group(1).strip("|"), m.group(2), m.group(3).strip()
+        try:
+            if sort == "Int":
+                mm = re.fullmatch(r"\(-\s*(\d+)\)", val)
+                res[name] = -int(mm.group(1)) if mm else int(val)
+            elif sort == "Bool":
+                res[name] = val == "true"
+            else:
+                if val.startswith('"') and val.endswith('"'):
+                    v = val[1:-1].replace('""', '"')
+                    v = re.sub(r"\\u\{([0-9a-fA-F]+)\}", lambda g: chr(int(g.group(1), 16)), v)
+                    res[name] = v
+        except Exception:  # noqa
+            pass
+    return res
+
+
+def split_model(txt):
+    if isinstance(txt, str) and SCALARS_MARK in txt:
+        a, b = txt.split(SCALARS_MARK, 1)
+        try:
+            return a, json.loads(b)
+        except Exception:  # noqa
+            return a, None
+    return txt, None
 
 
 def cvc5_check(smt2: str, tlimit_s: int):
@@ -486,7 +549,8 @@ def solve_text(args):
             if v2 == "unsat":
                 return "discharged", "cvc5-1.0.3", time.time() - t0, None
             if v2 == "sat":
-                return "failed", "cvc5-1.0.3", time.time() - t0, out[-1500:]
+                sc = cvc5_scalars(out)
+                return "failed", "cvc5-1.0.3", time.time() - t0, out[-1500:] + (SCALARS_MARK + json.dumps(sc) if sc else "")
         else:
             v2 = "not-run"
         if timeout_ms > 2000:
@@ -513,10 +577,10 @@ class Cvc5Job:
         self.p = None
         try:
             with tempfile.NamedTemporaryFile("w", suffix=".smt2", delete=False) as f:
-                f.write("(set-logic ALL)\n" + smt2.replace("(set-logic ALL)", ""))
+                f.write("(set-logic ALL)\n" + smt2.replace("(set-logic ALL)", "") + "\n(get-model)\n")  # the model is only printed after `sat` (an error line after `unsat` is ignored)
                 self.fn = f.name
             self.tl = tlimit_s
-            self.p = subprocess.Popen(["/usr/bin/cvc5", "--strings-exp", f"--tlimit={tlimit_s*1000}", self.fn], stdout=subprocess.PIPE, stderr=subprocess.PIPE, text=True)
+            self.p = subprocess.Popen(["/usr/bin/cvc5", "--strings-exp", "--produce-models", f"--tlimit={tlimit_s*1000}", self.fn], stdout=subprocess.PIPE, stderr=subprocess.PIPE, text=True)
         except Exception:  # noqa
             self.p = None
 
@@ -570,7 +634,8 @@ def assemble(rep, results, cover_results):
         g["backend"].add(backend)
         if verdict == "failed":
             if g["verdict"] != "failed":
-                g.update(verdict="failed", model=model, line=q["line"], path=q["path"], goal_txt=q["goal_txt"], solver_output="sat")
+                mtxt, scalars = split_model(model)
+                g.update(verdict="failed", model=mtxt, scalars=scalars, line=q["line"], path=q["path"], goal_txt=q["goal_txt"], solver_output="sat")
         elif verdict == "undecided" and g["verdict"] == "discharged":
             g.update(verdict="undecided", line=q["line"], path=q["path"], detail=backend)
     for g in groups.values():
